@@ -172,6 +172,13 @@ func expect(streamBytes []byte) expectation {
 		before := model.Clone()
 		ok := false
 		if len(f) >= 20 && binary.BigEndian.Uint16(f[0:2]) == 10 {
+			if int(binary.BigEndian.Uint16(f[18:20])) != len(f)-16 {
+				// the set length field disagrees with the message length: a collector may read the set as long as
+				// its own length says (RFC 7011) or, as this library does, as long as the message; the two readings
+				// accept different messages: the verdict ends here
+				e.open = true
+				return e
+			}
 			setID := binary.BigEndian.Uint16(f[16:18])
 			if setID == 2 {
 				eff, _ := model.Apply(reg, mirror.Strict, f)
@@ -454,7 +461,7 @@ func runCase(c *hx.Ctx, coll *lib.Coll, k int, r *rand.Rand, addr string, domain
 		return
 	}
 	if exp.open {
-		c.Add("streams_judged_up_to_a_frame_with_nonzero_leftover", 1)
+		c.Add("streams_judged_up_to_an_ambiguous_frame", 1)
 		conn.Close()
 	} else if exp.closes {
 		conn.SetReadDeadline(time.Now().Add(15 * time.Second))
